@@ -18,7 +18,7 @@ EXPLANATION = (
     "no operand data is written and no result aliases an operand. C15.4: __add__ concatenates (self, other), __radd__ (other, self); "
     "binary_sequence/str/Array_Like are accepted, anything else raises TypeError; non-0/1 content and ndim != 1 raise ValueError. "
     "C15.5: len = data.size, ones = sum(data), zeros = len - ones. C15.6: > and < compare self.abs() (|signal+noise|) with other.abs() "
-    "using > and < respectively. Not decided: the algebraic laws as such (they follow from numpy semantics given this structure).")
+    "using > and < respectively, and unequal lengths raise unless the right operand has length 1 (length classes (n,n), (n,1), (n,m), (1,n)). Not decided: the algebraic laws as such (they follow from numpy semantics given this structure).")
 TRUSTED = ["numpy.concatenate/astype/array allocate new arrays", "utils.str2array (C19)", "CPython ast"]
 
 
